@@ -67,7 +67,7 @@ def json_obs(obj):
     for sort in (False, True):
         for minimal in (False, True):
             _STYLE[0] += 1
-            st = _STYLE[0] % 5
+            st = _STYLE[0] % 6
             if st == 0:
                 d = obj.as_json(sort=sort, minimal=minimal)
             elif st == 1:
@@ -76,8 +76,11 @@ def json_obs(obj):
                 d = obj.as_json(sort, minimal=minimal)
             elif st == 3:
                 d = obj.as_json(minimal=minimal, sort=sort)
-            else:
+            elif st == 4:
                 d = obj.as_json(**{"sort": sort, "minimal": minimal}) if (sort or minimal) else obj.as_json()
+            else:          # flags by truthiness, as Python callers commonly pass them (1 / 0, a non-empty / empty string, None)
+                tv = {True: [1, "yes", [0]], False: [0, "", None]}
+                d = obj.as_json(tv[sort][_STYLE[0] % 3], minimal=tv[minimal][(_STYLE[0] // 3) % 3])
             txt = json.dumps(d)
             try:
                 from collections import OrderedDict
@@ -104,10 +107,13 @@ def observe(obj, ver, with_json=True, order=None):
              lambda: o.__setitem__("rh", esc(obj.rh_vector()))]
     if ver != "2":
         _STYLE[0] += 1
+        falsy = [False, False, 0, None, ""][_STYLE[0] % 5]
         if _STYLE[0] % 2:
-            calls.append(lambda: o.__setitem__("clean_np", esc(obj.clean_vector(output_prefix=False))))
+            calls.append(lambda: o.__setitem__("clean_np", esc(obj.clean_vector(output_prefix=falsy))))
         else:
-            calls.append(lambda: o.__setitem__("clean_np", esc(obj.clean_vector(False))))
+            calls.append(lambda: o.__setitem__("clean_np", esc(obj.clean_vector(falsy))))
+        truthy = [True, 1, "yes"][_STYLE[0] % 3]
+        calls.append(lambda: o.__setitem__("clean_p", esc(obj.clean_vector(output_prefix=truthy))))
     if ver != "4":
         calls.append(lambda: o.__setitem__("tv", esc(obj.temporal_vector())))
         calls.append(lambda: o.__setitem__("ev", esc(obj.environmental_vector())))
@@ -118,6 +124,8 @@ def observe(obj, ver, with_json=True, order=None):
         random.Random(order).shuffle(calls)
     for c in calls:
         c()
+    if o.pop("clean_p", o.get("clean")) != o.get("clean"):          # an explicit truthy flag means what the default means
+        o["clean"] = "<clean_vector(output_prefix=truthy) differs from clean_vector()>"
     return o
 
 
